@@ -493,7 +493,8 @@ void rt_run_tasks(int ntasks, TaskFn fn, void* arg, ChooseFn choose, void* cctx,
     uint64_t before = tk->ctx.steps;
     if (q == 0) q = 1;
     tk->ctx.until_event = q >= (~0ull >> 2);                       // run until next event / finish
-    tk->ctx.step_limit = tk->ctx.until_event ? tk->ctx.budget : before + q;
+    // (bounded: a task spinning on something a parked task must provide is preempted after 2e6 edges at the latest)
+    tk->ctx.step_limit = tk->ctx.until_event ? before + 2000000 : before + q;
     if (tk->ctx.step_limit > tk->ctx.budget) tk->ctx.step_limit = tk->ctx.budget;
     unpark(&tk->go);
     park(&g_sched_go);
@@ -538,6 +539,32 @@ extern "C" int __wrap___cxa_guard_acquire(void* g) {
   return r;
 }
 extern "C" void __wrap___cxa_guard_release(void* g) { __cxa_guard_release(g); sim::TaskCtx* t = sim::sim_cur(); if (t->guard_depth > 0) --t->guard_depth; }
+// std::call_once / pthread_once: one-time initialisation under a proper guard, same treatment as a magic static
+extern "C" int __wrap_pthread_once(pthread_once_t* once, void (*fn)(void)) {
+  sim::TaskCtx* t = sim::sim_cur();
+  ++t->guard_depth; ++t->guard_brackets;
+  int r = pthread_once(once, fn);
+  if (t->guard_depth > 0) --t->guard_depth;
+  return r;
+}
+// Blocking primitives: under the simulator only one task runs at a time, so a task must never block in the kernel on
+// something another (parked) task holds. Locks become try-lock loops that hand the processor back; sched_yield is a
+// yield point. (TSan still sees the real lock operations and their happens-before edges.)
+#include <sched.h>
+#include <cerrno>
+namespace sim { static void yield_if_task() { TaskCtx* t = sim_cur(); if (t->preemptible && g_tasks) task_yield(&g_tasks[t->id], 1); else sched_yield(); } }
+extern "C" int __wrap_pthread_mutex_lock(pthread_mutex_t* m) {
+  sim::TaskCtx* t = sim::sim_cur(); ++t->guard_brackets;
+  for (;;) { int r = pthread_mutex_trylock(m); if (r != EBUSY) return r; sim::yield_if_task(); }
+}
+extern "C" int __wrap_pthread_rwlock_rdlock(pthread_rwlock_t* l) {
+  for (;;) { int r = pthread_rwlock_tryrdlock(l); if (r != EBUSY && r != EAGAIN) return r; sim::yield_if_task(); }
+}
+extern "C" int __wrap_pthread_rwlock_wrlock(pthread_rwlock_t* l) {
+  sim::TaskCtx* t = sim::sim_cur(); ++t->guard_brackets;
+  for (;;) { int r = pthread_rwlock_trywrlock(l); if (r != EBUSY) return r; sim::yield_if_task(); }
+}
+extern "C" int __wrap_sched_yield() { sim::yield_if_task(); return 0; }
 extern "C" void __wrap___cxa_guard_abort(void* g) { __cxa_guard_abort(g); sim::TaskCtx* t = sim::sim_cur(); if (t->guard_depth > 0) --t->guard_depth; }
 
 // sanitizer defaults: classify hits by exit code; leaks are decided exactly by the allocator seam
